@@ -194,6 +194,7 @@ func Minimise(env *Env, chk Check, c *Case, v Violation) *Replay {
 			if time.Now().After(deadline) {
 				break
 			}
+			apiSeq = 0
 			vs := chk.Eval(quiet, cand)
 			for _, w := range vs {
 				if w.Signature == v.Signature {
